@@ -35,12 +35,13 @@ func (g *Gen) modEffects(path string, root func(string) (modRoot, bool), st *Sta
 		fam := strings.TrimSpace(rest[7:])
 		var out []Effect
 		for _, df := range sortedKeys(g.declFam) {
-			if df == fam || (strings.HasPrefix(df, fam) && strings.ContainsAny(df[len(fam):len(fam)+1], ".#[")) {
+			if famUnder(df, fam) {
 				out = append(out, Effect{Fam: df, Sort: g.famSort[df]})
 			}
 		}
-		if len(out) == 0 {
-			g.pendingFamMods = append(g.pendingFamMods, fam)
+		if st != g.entry {
+			// components of the family that are first touched later must not alias their entry version
+			st.hv = append(st.hv, fam)
 		}
 		return out
 	}
@@ -307,8 +308,8 @@ func (g *Gen) frameFormula(fam string, now Term) (Term, bool) {
 	var excl []Term
 	g.n++
 	r := Term{fmt.Sprintf("r!%d", g.n), SInt}
-	for _, pf := range g.pendingFamMods {
-		if fam == pf || (strings.HasPrefix(fam, pf) && strings.ContainsAny(fam[len(pf):len(pf)+1], ".#[")) {
+	for _, m := range g.con.Modifies {
+		if strings.HasPrefix(m, "family ") && famUnder(fam, strings.TrimSpace(m[7:])) {
 			return Term{}, false
 		}
 	}
@@ -1186,7 +1187,11 @@ func (g *Gen) inlineCall(x *ssa.Call, f *ssa.Function) {
 		}
 	}
 	if len(g.inlineStack) >= 4 {
-		oos("call to %s which has no contract (inlining depth exceeded)", shortKey(f.String()))
+		chain := ""
+		for _, s := range g.inlineStack {
+			chain += shortKey(s.String()) + " > "
+		}
+		oos("call to %s which has no contract (inlining depth exceeded: %s)", shortKey(f.String()), chain)
 	}
 	// bind parameters
 	args := x.Call.Args
